@@ -60,6 +60,15 @@ type IterPlan struct {
 	CleanupsLate bool `json:"late,omitempty"`
 	// InTimeStage: the behaviour happens inside t.Time("stage", ...)
 	InTimeStage bool `json:"in_time,omitempty"`
+	// EmptyStage: ... with an empty stage name (legal)
+	EmptyStage bool `json:"empty_stage,omitempty"`
+}
+
+func (p IterPlan) stageName() string {
+	if p.EmptyStage {
+		return ""
+	}
+	return "stage"
 }
 
 type ComponentPlan struct {
@@ -221,6 +230,7 @@ func genIterPlans(r *simrt.Rng, n int, failShare float64, maxSleepMs int, cleanu
 		}
 		p.CleanupsLate = r.Intn(4) == 0
 		p.InTimeStage = r.Intn(5) == 0
+		p.EmptyStage = p.InTimeStage && r.Intn(2) == 0
 		out = append(out, p)
 	}
 	return out
@@ -359,6 +369,9 @@ func (h h1) Gen(prop, tier string, r *simrt.Rng) (any, simrt.Config) {
 		c.Metrics = true
 		c.Runs = 1 + r.Intn(3)
 		c.SameScenario = r.Intn(2) == 0
+		if r.Intn(4) == 0 {
+			c.Driver = "f1" // the process-wide metrics instance, which T.Time stages record into as well
+		}
 	case "C19":
 		c.Interactive = r.Intn(2) == 0
 		c.Verbose = false
@@ -556,6 +569,13 @@ func (h h1) Gen(prop, tier string, r *simrt.Rng) (any, simrt.Config) {
 	if c.Driver == "f1" {
 		c.CancelAtNs, c.CancelAtStep, c.Runs = 0, 0, 1
 		c.Verbose, c.Interactive = true, false
+		if prop == "C16" {
+			c.Metrics, c.StaticLabels = true, nil // the global instance was initialised with iteration metrics on, no static labels
+			for i := range c.Prog.Iter {
+				c.Prog.Iter[i].InTimeStage = i%2 == 0
+				c.Prog.Iter[i].EmptyStage = i%4 == 0
+			}
+		}
 	}
 	if c.Mode == "users" {
 		c.TickNs, c.TickRate = 0, 0
@@ -604,6 +624,9 @@ func (h h1) Gen(prop, tier string, r *simrt.Rng) (any, simrt.Config) {
 	} else if c.Metrics && r.Intn(2) == 0 {
 		c.StaticLabels = simrt.Pick(r, [][2]string{{"zeta", "1"}, {"alpha", "2"}}, [][2]string{{"b", "x"}, {"a", "y"}, {"c", "w"}},
 			[][2]string{{"k1", "v1"}}, [][2]string{{"env", "zz"}, {"team", "aa"}, {"app", "mm"}, {"dc", "bb"}})
+	}
+	if c.Driver == "f1" {
+		c.StaticLabels = nil // the process-wide instance carries no static labels
 	}
 	sc := genSimCfg(r, faults)
 	sc.MaxSimNs += c.StartOffsetNs
